@@ -5,7 +5,7 @@ import sys
 from collections.abc import Mapping
 
 from core.engine import Property, F
-from props.c15_learners import Scripted, make_learner, dec, enc, freeze, is_batch, HINT, DICT_FLAVOURS, MAPPING_FLAVOURS
+from props.c15_learners import Scripted, make_learner, dec, enc, freeze, is_batch, HINT, DICT_FLAVOURS, MAPPING_FLAVOURS, REFUSALS
 
 LCG_A, LCG_C, LCG_M = 116646453, 9, 2 ** 30
 HINTS = ("action", "action_prob", "pmf")
@@ -42,6 +42,37 @@ def path_names():
         _PATH_NAMES = seen
     return _PATH_NAMES
 FMTS = ["A", "AP", "PM", "dA", "dAP", "dPM"]
+NOBATCH_RETURNS = ("none", "keyerror")      # reactions to a batch that are not a plain exception of the learner's first operation
+LCG_AINV = pow(LCG_A, -1, LCG_M)
+
+
+def tie_seed(k, num, den):
+    """the seed (30-bit state) whose k-th uniform draw (k >= 1) is exactly num/den (den a power of two <= 2**30): the LCG
+    s' = (a*s+c) mod 2**30 is a bijection, so every state - also 0 - is the k-th successor of exactly one seed"""
+    s = (num * (LCG_M // den)) % LCG_M
+    for _ in range(k):
+        s = (LCG_AINV * (s - LCG_C)) % LCG_M
+    return s
+
+
+def tie_case(case, rng_or_none, k, t_index):
+    """Make the k-th PMF draw of the case (rows in call order) land EXACTLY on a boundary of that row's cumulative PMF: the
+    uniform draw u equals cdf[t_index] (or 0 when t_index < 0).  `first i with u*tot < cdf[i]` then is the action after the
+    boundary; a zero-probability action is never drawn."""
+    rows = [r for call in case["calls"] for r in call]
+    r = rows[k - 1]
+    from fractions import Fraction
+    ws = [Fraction(dec(x)) for x in r["pmf"]]
+    cdf, acc = [], Fraction(0)
+    for w in ws:
+        acc += w
+        cdf.append(acc)
+    t = Fraction(0) if t_index < 0 else cdf[t_index]
+    if not (0 <= t < 1) or LCG_M % t.denominator:
+        return None
+    case["seed"] = tie_seed(k, t.numerator, t.denominator)
+    case["tie"] = [k, t.numerator, t.denominator]
+    return case
 
 
 # ----------------------------------------------------------------------------------------------
@@ -830,6 +861,17 @@ def gen_pmf(rng, K, style):
     if style == "mixed01":
         j = rng.below(K)
         return [({"i": 1} if i == j else {"f": [0, 1]}) for i in range(K)]
+    if style == "zeros":
+        # dyadic, summing to exactly 1, with zero-probability actions (leading / interior / trailing) - they must never be played
+        den = rng.choice([2, 4, 8])
+        nz = rng.randint(1, max(1, K - 1)) if K > 1 else 0
+        pos = K - nz
+        cuts = sorted(rng.sample(list(range(1, den)), min(pos - 1, den - 1))) if pos > 1 else []
+        parts = [b - a for a, b in zip([0] + cuts, cuts + [den])]
+        parts = parts + [0] * (K - len(parts))
+        where = rng.below(3)
+        parts = sorted(parts) if where == 0 else sorted(parts, reverse=True) if where == 1 else rng.shuffle(parts)
+        return [{"f": [p, den]} for p in parts]
     if style == "near1":
         # sum off by d/65536, d spread over the documented tolerance [0, .001] (65/65536 < .001 < 66/65536); 16-bit entries keep
         # every float operation of possible_pmf / choicew exact
@@ -867,13 +909,13 @@ def gen_case(rng, stress=0.3):
         keys = rng.sample(pool, min(len(pool), rng.wchoice([(3, 1), (2, 2), (1, 4)])))
         if rng.chance(0.3):
             keys = keys + ["k"]
-    pmf_style = rng.wchoice([(3, "onehot_int"), (1, "onehot_flt"), (1, "mixed01"), (4, "dyadic"), (3, "near1")])
+    pmf_style = rng.wchoice([(3, "onehot_int"), (1, "onehot_flt"), (1, "mixed01"), (4, "dyadic"), (3, "near1"), (3, "zeros")])
     if rng.chance(stress):
         # the heart of the disambiguation: answers whose items are 0/1-like next to action sets containing 0/1-like values
         fmt = rng.wchoice([(6, "PM"), (2, "A"), (2, "AP"), (1, "dPM")])
         kind = rng.choice(["int01", "mixint", "bool", "flt01", "fltmix", "onehot_t", "onehot_l", "lst2", "tup2", "fltp", "strpre"])
         K = rng.wchoice([(1, 1), (6, 2), (3, 3)])
-        pmf_style = rng.wchoice([(5, "onehot_int"), (2, "mixed01"), (1, "onehot_flt"), (2, "dyadic"), (3, "near1")])
+        pmf_style = rng.wchoice([(5, "onehot_int"), (2, "mixed01"), (1, "onehot_flt"), (2, "dyadic"), (3, "near1"), (3, "zeros")])
     if rng.chance(0.04):
         # row-major bare sparse actions with different feature names per action (recorded defect C15-F4)
         fmt, kw, kind = "A", False, "sparse1h"
@@ -883,7 +925,7 @@ def gen_case(rng, stress=0.3):
     case = {"seed": rng.wchoice([(2, None), (3, rng.randint(0, 50)), (1, rng.randint(-2 ** 31, 2 ** 40))]),
             "fmt": fmt, "kw": kw, "layout": layout, "batch": batch,
             "wrap": rng.choice(["tuple", "list"]), "pmf_type": rng.wchoice([(3, "list"), (1, "tuple")]),
-            "nobatch": rng.wchoice([(3, "raise"), (1, "none"), (1, "keyerror")]), "e2e": rng.chance(0.35), "calls": []}
+            "nobatch": rng.wchoice([(3, "raise"), (1, "none"), (1, "keyerror"), (5, rng.choice(sorted(REFUSALS)))]), "e2e": rng.chance(0.35), "calls": []}
     if batch and rng.chance(0.3):
         # batch-awareness differs per method: predict native / learn per row, predict per row / learn native, same for score
         case["learn_batch"] = rng.chance(0.5)
@@ -936,6 +978,12 @@ def gen_case(rng, stress=0.3):
                 seen[key] = row
             call.append(row)
         case["calls"].append(call)
+    if fmt in ("PM", "dPM") and pmf_style in ("dyadic", "zeros", "onehot_int", "onehot_flt", "mixed01") and rng.chance(0.5):
+        # exact ties: the uniform draw of one row lands exactly on a boundary of its cumulative PMF (0.0 incl.)
+        nrows = sum(len(c) for c in case["calls"])
+        k = rng.randint(1, nrows)
+        K_ = len([r for c in case["calls"] for r in c][k - 1]["pmf"])
+        tie_case(case, rng, k, rng.randint(-1, K_ - 1))
     return case
 
 
@@ -1092,6 +1140,59 @@ def gen_ambiguous(rng):
     return case
 
 
+def extract_safety_consts(path):
+    """hint key lists, possible_pmf's tolerance, the has_score / score / learn probe strings and make_safe's [0,1], read from the
+    source text of coba/safety.py with ast (no import, no execution)"""
+    import ast
+    from fractions import Fraction
+    src = open(path, encoding="utf-8").read()
+    tree = ast.parse(src)
+    cls = next(n for n in ast.walk(tree) if isinstance(n, ast.ClassDef) and n.name == "SafeLearner")
+    funcs = {}
+    for n in ast.walk(cls):
+        if isinstance(n, ast.FunctionDef):
+            funcs.setdefault(n.name, n)
+    out = {"hint_sites": []}
+    strlist = lambda node: [e.value for e in node.elts] if isinstance(node, ast.List) and all(isinstance(e, ast.Constant) and isinstance(e.value, str) for e in node.elts) else None
+    for n in ast.walk(cls):
+        if isinstance(n, ast.Assign) and any(isinstance(t, ast.Name) and t.id == "is_hint" for t in n.targets):
+            lists = [strlist(x) for x in ast.walk(n.value) if strlist(x)]
+            if len(lists) != 1:
+                raise ValueError("is_hint without exactly one key list")
+            out["hint_sites"].append(lists[0])
+    if not out["hint_sites"]:
+        raise ValueError("no is_hint lambda found")
+    calls = [c for c in ast.walk(cls) if isinstance(c, ast.Call) and getattr(c.func, "id", getattr(c.func, "attr", None)) == "isclose"]
+    if len(calls) != 1:
+        raise ValueError("expected one isclose call")
+    c = calls[0]
+    kw = {k.arg: k.value for k in c.keywords}
+    if set(kw) != {"abs_tol"} or len(c.args) != 2 or not isinstance(c.args[1], ast.Constant) or isinstance(c.args[1].value, bool) or not isinstance(c.args[1].value, int):
+        raise ValueError("isclose call reshaped")
+    tol = Fraction(ast.get_source_segment(src, kw["abs_tol"]).strip())
+    out["abs_tol"], out["pmf_total"] = [tol.numerator, tol.denominator], c.args[1].value
+
+    def needle(fn, op):
+        found = [x.left.value for x in ast.walk(funcs[fn]) if isinstance(x, ast.Compare) and len(x.ops) == 1 and isinstance(x.ops[0], op)
+                 and isinstance(x.left, ast.Constant) and isinstance(x.left.value, str)]
+        return found
+    hs, sc = needle("has_score", ast.NotIn), needle("score", ast.In)
+    if len(hs) != 1 or len(sc) != 1:
+        raise ValueError("probe strings of has_score / score not found")
+    out["has_score_needle"], out["score_needle"] = hs[0], sc[0]
+    out["learn_needles"] = needle("learn", ast.In)
+    zo = None
+    for n in ast.walk(funcs["predict"]):
+        if isinstance(n, ast.Assign) and any(isinstance(t, ast.Name) and t.id == "make_safe" for t in n.targets):
+            for x in ast.walk(n.value):
+                if isinstance(x, ast.Compare) and isinstance(x.ops[0], ast.In) and isinstance(x.comparators[0], ast.List):
+                    zo = [ast.literal_eval(e) for e in x.comparators[0].elts]
+    if zo is None or not all(isinstance(v, int) and not isinstance(v, bool) for v in zo):
+        raise ValueError("make_safe's list not found")
+    out["zero_one"] = zo
+    return out
+
+
 class C15(Property):
     id = "C15"
     prop_modules = ["CobaVerif.Props.C15"]
@@ -1112,6 +1213,10 @@ class C15(Property):
             "batched and unbatched calls ((A) only); action kind `nan` ((B) only: not in the model); "
             "12% of cases are SafeLearner(SafeLearner(L), seed2) histories (two wrappers of one learner, calls interleaved, each batched or unbatched on its own); "
             "string action sets with prefixes of each other (compass points); 20% of PMFs sum to 1 +- d/65536 with d spread over the documented tolerance .001; "
+            "round g: learners that cannot batch refuse with the real exception of their first operation on a batched value (18 flavours: int()/float() 'argument must be', "
+            "'argument of type', missing/unexpected argument, unhashable, AttributeError incl. 'score', Index/Key/Value/ZeroDivision/Assertion/NotImplemented/RuntimeError) in predict, learn and score (50% of cases); "
+            "PMF style `zeros` (zero-probability actions leading/interior/trailing) and, for half of the exact-sum PMF cases, a seed computed by inverting the LCG so that one row's uniform draw "
+            "lands exactly on a boundary of its cumulative PMF (0.0 included); "
             "non-trivial = in-quantifier case for which the real code returned a result for every call, with >= 2 rows overall or a PMF draw; "
             "distinct by canonical JSON of the case")
     trusted_base = [
@@ -1135,9 +1240,49 @@ class C15(Property):
                         "pmf_entry_fresh); format_roundtrip is the full-strength theorem for the code with fixes/C15-*.diff applied",
                         "mixed_*_counterexample": "histories that switch ONE wrapper between batched and unbatched calls are not claimed (mixed_history_roundtrip is false: "
                         "the layout/call style memoised on the first call is kept); the model mirrors the code there and is compared on generated mixed histories",
-                        "pyEq_scalar_equiv": "== is proved an equivalence on scalars only; for cached action sets cached_actions_equal needs no transitivity; nested values open; nan not in the model ((B) only)",
+                        "pyEq_seq_equiv": "== is proved an equivalence on scalars nested in tuples/lists to any depth (seqVal); dict values need duplicate-free keys "
+                        "(pyEq_dict_dupkeys_counterexample: the model's key/value lists admit a repeated key, then == is not symmetric) - that case is open; "
+                        "for cached action sets cached_actions_equal needs no transitivity; nan not in the model ((B) only)",
                         "history_roundtrip": "full strength for every Fixes value; for the model's dict = abc.Mapping reading it mirrors the code only once "
                         "fixes/C15-colhint-kwargs-mapping.diff (open finding C15-F5) is applied - until then (A) is skipped in that region"}
+
+    # ---- translator part: constants of coba/safety.py re-extracted (ast) on every run -> Generated/C15Consts.lean; Props/C15.lean
+    # proves they are the ones the model uses (`source_constants_match`), so an edited constant breaks a proof obligation
+    def pre_build(self):
+        from core import lean
+        path = os.path.join(lean.LEAN_DIR, "CobaVerif", "Generated", "C15Consts.lean")
+        lstr = lambda x: json.dumps(x, ensure_ascii=True)
+        try:
+            vals = extract_safety_consts(os.path.join(os.environ.get("COBA_REPO", "/repo"), "coba", "safety.py"))
+            ok, note = True, "constants extracted from coba/safety.py: %s" % json.dumps(vals)
+        except Exception as e:
+            vals = {"hint_sites": [list(HINTS), list(HINTS)], "abs_tol": [1, 1000], "pmf_total": 1, "has_score_needle": "score",
+                    "score_needle": "'score'", "zero_one": [0, 1], "learn_needles": ["got an unexpected", "learn() missing"]}
+            ok, note = False, "constants of coba/safety.py could not be extracted (%s: %s); last known values written" % (type(e).__name__, e)
+        lines = ["-- GENERATED by harness/props/c15.py from coba/safety.py (ast) on every run; do not edit.",
+                 "namespace Coba.Generated.C15",
+                 "/-- every `is_hint = lambda item: any(k in item for k in [...])` key list, in source order -/",
+                 "def hintSites : List (List String) := [%s]" % ", ".join("[%s]" % ", ".join(lstr(k) for k in site) for site in vals["hint_sites"]),
+                 "/-- `isclose(sum(item), <pmfTotal>, abs_tol=<absTolNum>/<absTolDen>)` in possible_pmf -/",
+                 "def pmfTotal : Nat := %d" % vals["pmf_total"],
+                 "def absTolNum : Nat := %d" % vals["abs_tol"][0],
+                 "def absTolDen : Nat := %d" % vals["abs_tol"][1],
+                 "/-- `<needle> not in str(ex)` in has_score; `<needle> in str(ex)` in score -/",
+                 "def hasScoreNeedle : String := %s" % lstr(vals["has_score_needle"]),
+                 "def scoreNeedle : String := %s" % lstr(vals["score_needle"]),
+                 "/-- `make_safe = lambda a: float(a) if a in [...] else a` -/",
+                 "def zeroOne : List Int := [%s]" % ", ".join(str(int(v)) for v in vals["zero_one"]),
+                 "/-- the TypeError texts learn turns into a CobaException -/",
+                 "def learnNeedles : List String := [%s]" % ", ".join(lstr(x) for x in vals["learn_needles"]),
+                 "def extracted : Bool := %s" % ("true" if ok else "false"),
+                 "end Coba.Generated.C15", ""]
+        body = "\n".join(lines)
+        old = open(path, encoding="utf-8").read() if os.path.exists(path) else None
+        if old != body:
+            os.makedirs(os.path.dirname(path), exist_ok=True)
+            with open(path, "w", encoding="utf-8") as f:
+                f.write(body)
+        return [note]
 
     # ---- cases
     def generate(self, rng, tier):
@@ -1238,6 +1383,12 @@ class C15(Property):
         nrows = sum(len(c) for c in case["calls"])
         tags.append("rows:%d" % min(nrows, 6))
         tags.append("K:%d" % len(case["calls"][0][0]["actions"]))
+        if case.get("tie"):
+            tags.append("tie:draw%d/%s" % (min(case["tie"][0], 4), "zero" if case["tie"][1] == 0 else "interior"))
+        if fmt in ("PM", "dPM") and any(dec(x) == 0 for c in case["calls"] for r in c for x in r["pmf"][:1]):
+            tags.append("pmf:leading-zero")
+        if batch and (layout == "single" or case.get("learn_batch") is False or case.get("score_batch") is False):
+            tags.append("nobatch:" + str(case.get("nobatch", "raise")))
         if batch and len(case["calls"][0]) == len(case["calls"][0][0]["actions"]):
             tags.append("square:n=K")
         if inq:
@@ -1363,7 +1514,7 @@ class C15(Property):
         if "scripted" in ans and not case.get("weird"):
             rend = ans["rendered"]
             actual = [({"exc": "LearnerError"} if "exc" in e else strip(e["resp"])) for e in recorded]
-            if case.get("nobatch", "raise") != "raise":
+            if case.get("nobatch", "raise") in NOBATCH_RETURNS:
                 # the Lean learner of the theorems raises on a batch; `None` / another exception take the same fallback path
                 actual = [({"exc": "LearnerError"} if (e["arg"]["batch"] and case["layout"] == "single") else a) for e, a in zip(recorded, actual)]
             if rend != actual:
@@ -1381,7 +1532,7 @@ class C15(Property):
 
     def compare_history(self, case, learner, recs, ans, fails, tags, name, already):
         """(A) for `runHistory` (what learn is given) and `score`; (C) for score_roundtrip"""
-        if "history" in ans and not already and case.get("nobatch", "raise") == "raise" and all("nl1" in rec for rec in recs):
+        if "history" in ans and not already and case.get("nobatch", "raise") not in NOBATCH_RETURNS and all("nl1" in rec for rec in recs):
             real = []
             for rec in recs:
                 lcs = [l for l in learner.learn_calls[rec["nl0"]:rec["nl1"]] if l[0] != "rejected"]
@@ -1639,6 +1790,35 @@ def corpus_cases():
                     if lb is not None:
                         c["learn_batch"] = lb
                     cs.append(c)
+    # round g (1): PMF draws that land exactly on a boundary of the cumulative PMF - uniform draw 0.0 with leading zero-probability
+    # actions, 1/2 on [.5,.5,0], 1/4 on [.25,0,.25,.5] (interior zero), 3/4 - as the 1st, 2nd or 3rd draw of the wrapper's generator
+    H, Q, Z = {"f": [1, 2]}, {"f": [1, 4]}, {"f": [0, 1]}
+    s4 = sets["str"] + [{"s": "dd"}]
+    ties = [(sets["str"], [Z, H, H], -1), (sets["str"], [Z, Z, {"f": [1, 1]}], -1), (sets["str"], [H, H, Z], 0), (s4, [Q, Z, Q, H], 0),
+            (s4, [Q, Z, Q, H], 2), (sets["int012"], [{"i": 0}, {"i": 1}, {"i": 0}], 0), (sets["fltp"], [H, H], 0)]
+    for fmt in ("PM", "dPM"):
+        for mode in ("not", "single", "row", "col"):
+            for k in (1, 2, 3):
+                for ti, (acts, pmf, t) in enumerate(ties):
+                    n = 1 if mode == "not" else 2
+                    calls = [[row(acts, 0, 10 * ci + i, pmf=pmf) for i in range(n)] for ci in range(3 if n == 1 else 2)]
+                    c = tie_case({"seed": 1, "fmt": fmt, "kw": ti % 2 == 1, "layout": "single" if mode == "not" else mode, "batch": mode != "not",
+                                  "e2e": ti in (0, 3, 4), "calls": calls}, None, k, t)
+                    if c is not None:
+                        cs.append(c)
+    # round g (2): learners that cannot handle batches and say so with the exception their first operation on a batched value
+    # raises (int()/float() "argument must be ...", "argument of type ... is not iterable", unhashable, AttributeError, ...), for
+    # predict, learn and score, batches of 1, 2 and K rows: always one call per row with the same effect
+    for flav in sorted(REFUSALS):
+        for fmt, kw in (("A", True), ("AP", False), ("dAP", True), ("dPM", True)):
+            for n in (1, 2, 3):
+                rows = [row(sets["str"], (i + 1) % 3, i) for i in range(n)]
+                cs.append({"seed": 1, "fmt": fmt, "kw": kw, "layout": "single", "batch": True, "nobatch": flav,
+                           "e2e": fmt in ("A", "dPM") and n != 2, "calls": [rows, rows[:2]]})
+        for layout in ("row", "col"):
+            rows = [row(sets["str"], (i + 1) % 3, i) for i in range(2)]
+            cs.append({"seed": 1, "fmt": "AP", "kw": True, "layout": layout, "batch": True, "nobatch": flav, "learn_batch": False,
+                       "score_batch": False, "e2e": layout == "row", "calls": [rows, rows[:1]]})
     seen, out = set(), []
     for c in cs:
         k = json.dumps(c, sort_keys=True)
